@@ -227,10 +227,10 @@ def classify(proj_dir, rc, err):
             shape.update({"class": "directive-functions-of-a-file-without-build", "exec_layout": "follow-schema",
                           "executable_directive_defined_in_a_file_without_type_definitions": True})
             return shape, next((l for l in lines if re.search(mw + "|dir_\\w+_args", l) and "undefined" in l), head)
-    if rc in (3, 6) and follow and re.search(mw + r" redeclared in this block", msg):
+    if rc in (3, 6) and follow and re.search(mw + r"( redeclared in this block| already declared at)", msg):
         shape.update({"class": "operation-middleware-declared-twice", "exec_layout": "follow-schema",
                       "executable_directives_of_one_location_defined_in_two_schema_files": executable_directive_files(proj_dir) >= 2})
-        return shape, next((l for l in lines if "redeclared" in l), head)
+        return shape, next((l for l in lines if "redeclared" in l or "already declared" in l), head)
     m = re.search(r"pattern (\S+): invalid pattern syntax", msg)
     if m and rc in (3, 6):
         shape.update({"class": "embed-pattern-leaves-the-package", "pattern": m.group(1),
